@@ -1,7 +1,7 @@
 (* Property C08 - only statements, each closed by [exact]. *)
 From Coq Require Import NArith List Bool Sorting.Sorted Permutation.
 Import ListNotations.
-Require Import UV.C08.Model UV.C08.Proofs.
+Require Import UV.C08.Model UV.C08.Proofs UV.C08.Figures UV.C08.Open UV.C08.Order UV.C08.Checker.
 Local Open Scope N_scope.
 
 (* The accumulation automaton of fstack_account_time + report_update_node (uint64 arithmetic, clamp
@@ -33,6 +33,67 @@ Theorem C08_one_node_per_function : forall nms rows tbl, names_sorted tbl ->
   /\ forall nm, find_node (fold_left (tbl_add nms) rows tbl) nm = fold_left (acc nms nm) rows (find_node tbl nm).
 Proof. exact table_lookup. Qed.
 Print Assumptions C08_one_node_per_function.
+
+(* Calls, Total (sum of the non-recursive invocations, recursive ones kept apart), Self, min, max and avg of
+   a function's row are exactly those figures of the rows bearing its name (sums below 2^64 ns). *)
+Theorem C08_calls_total_self_min_max_avg : forall nms rows nm,
+  let l := mine nms nm rows in
+  l <> [] -> sumN (map w_total l) < M64 -> sumN (map w_self l) < M64 ->
+  exists n, find_node (table_of_rows nms rows) nm = Some n /\ n_name n = nm /\ figures n l.
+Proof. exact report_figures. Qed.
+Print Assumptions C08_calls_total_self_min_max_avg.
+
+(* avg lies between min and max, for the Total and the Self column. *)
+Theorem C08_avg_between_min_max : forall n l, l <> [] -> figures n l ->
+  Forall (fun v => v < M64) (map w_total l) -> Forall (fun v => v < M64) (map w_self l) ->
+  smin (n_total n) <= avg (n_total n) <= smax (n_total n)
+  /\ smin (n_self n) <= avg (n_self n) <= smax (n_self n).
+Proof. exact avg_between_min_max. Qed.
+Print Assumptions C08_avg_between_min_max.
+
+(* Whole task, calls still open at the end included (add_remaining_fstack): completed top-level calls
+   followed by a chain of open frames (innermost first: ros), nesting below max_stack: the counted rows
+   are the tree rows of the completed calls, then one row per open call lasting until the task's last
+   record, self = that minus its completed callees minus the next inner open call. *)
+Theorem C08_open_calls : forall max_stack done ros,
+  let tt := mktt done (rev ros) in
+  let last := last_time tt in
+  (task_height tt <= N.to_nat max_stack)%nat -> last < M64 -> fits last 0 ros ->
+  task_rows max_stack (trace_recs tt)
+  = concat (map (rows64 []) done) ++ okids_rows [] (rev ros) ++ open_rows last 0 ros.
+Proof. exact task_rows_open. Qed.
+Print Assumptions C08_open_calls.
+
+(* A task of completed well-timed calls: the counted rows are exactly the specification's rows. *)
+Theorem C08_task_rows_closed : forall max_stack done,
+  (heights done <= N.to_nat max_stack)%nat -> Forall wt done ->
+  task_rows max_stack (concat (map (flat 0) done)) = concat (map (spec_rows []) done).
+Proof. exact task_rows_closed. Qed.
+Print Assumptions C08_task_rows_closed.
+
+(* The table does not depend on the order in which rows are counted (the time-ordered merge of tasks). *)
+Theorem C08_table_order_irrelevant : forall nms rows rows',
+  Permutation rows rows' -> table_of_rows nms rows = table_of_rows nms rows'.
+Proof. exact table_perm. Qed.
+Print Assumptions C08_table_order_irrelevant.
+
+(* The Self column of the whole table adds up to the Self times of all counted rows. *)
+Theorem C08_self_partition : forall nms rows, sumN (map w_self rows) < M64 ->
+  tself (table_of_rows nms rows) = sumN (map w_self rows).
+Proof. exact self_partition. Qed.
+Print Assumptions C08_self_partition.
+
+(* THE PROPERTY ON THE MODEL (completed calls): for every set of tasks of completed, well-timed calls nested
+   below max_stack with a total below 2^64 ns, the executable checker that is applied to the implementation's
+   table on every run (each function once; Calls, Total, Self, min, max, avg exact; Self column = summed
+   duration of the top-level calls) accepts the model's report.  Partial: tasks with calls open at the end
+   are covered by C08_open_calls at row level, not by this statement. *)
+Theorem C08_checker_accepts_model_closed_partial : forall max_stack nms tts,
+  Forall (closed_task max_stack) tts ->
+  sumN (map w_total (concat (map spec_task tts))) < M64 ->
+  ok_table nms tts (report (mkcase max_stack nms (map trace_recs tts))) = true.
+Proof. exact checker_accepts_model_closed. Qed.
+Print Assumptions C08_checker_accepts_model_closed_partial.
 
 (* report_sort_nodes: a permutation of the table in which no row stands before a larger one under the
    key list, rows equal under all keys in name order - for every key list. *)
